@@ -16,6 +16,14 @@
 //   debug <sizeof> <alignof> <page> : a<n>;f<k>;z<k>     DebugAllocator<Elem>     (z<k>: deallocate(p, 0))
 //   align <A> : i<off>;p<off>;q<off>                     isAligned(buf+off,A); placement new / array placement new of
 //                                                           AlignedNumber<double,A>
+//   dbgmgr <sizeof> <alignof> <page> <keep> : a<n>;f<k>;z<k>   a DebugMemory::AllocationManager owned by the case, compiled
+//                                                           with DEBUG_ALLOCATOR_KEEP=<keep>; what is still in use at the end
+//                                                           is given back, then the manager is destroyed inside the case
+//   poolnd / pand <sizeof> <alignof> <S> : …               Pool / PoolAllocator compiled with NDEBUG (no fx/fe/fb: undefined there)
+// raw kinds (malloc, aligned, debug, dbgmgr) also: h<n> allocate(n, hint); c<n> allocate through a copy of the allocator;
+//   g<k> / G<k> deallocate through a copy / through an allocator converted from another element type.
+// Compile-time configurations live in their own translation units (cxx_c15_keep.cc, cxx_c15_ndebug.cc) with the
+// library's names renamed; see cxx_c15_shared.hh.
 #include <config.h>
 
 #include <dlfcn.h>
